@@ -118,6 +118,7 @@ struct Global {
     uint64_t steps = 0;
     // choice stream
     Rng rng{0};
+    Rng tail_rng{0};
     bool replay = false;
     std::vector<uint32_t> replay_vals;
     uint64_t choice_idx = 0;
@@ -364,9 +365,14 @@ static SimThread *choose_next(bool allow_self) {
         }
         int dflt = (allow_self && me) ? me->id : cand[0];
         int pick = dflt;
-        if (nc > 1 && (G.tail || G.strat == 4)) {
-            // fair tail (and the round-robin strategy): the candidate that ran least recently. A pure function of the
-            // state: it consumes no choice, so search and replay behave identically and liveness budgets are meaningful.
+        if (nc > 1 && G.tail) {
+            // Fair tail: uniformly random among the candidates, from a generator of its own (seeded by the plan, never
+            // recorded: it consumes no choice, so search and replay behave identically). Strict round-robin is not fair
+            // enough here: it can phase-lock with a polling loop so that a third thread always gets its turn while the
+            // mutex it needs is held (seen with two concurrent join-all callers), which is an artefact, not a property
+            // of the code under test.
+            pick = cand[G.tail_rng.below(nc)];
+        } else if (nc > 1 && G.strat == 4) {
             uint64_t best = UINT64_MAX;
             for (int k = 0; k < nc; k++) {
                 uint64_t l = G.th[cand[k]].last_run_step;
@@ -613,6 +619,7 @@ void begin(const Plan &plan) {
 
     uint64_t sseed = (uint64_t)plan.get("sched_seed", (int64_t)plan.seed);
     G.rng = Rng(mix64(sseed, 0x5C4ED));
+    G.tail_rng = Rng(mix64(sseed, 0x7A11));
     G.replay = plan.have_choices;
     G.replay_vals.clear();
     if (G.replay) {
